@@ -248,7 +248,8 @@ def seeded_matrix(allids):
                 out[sid] = {"status": "does-not-compile"}
                 continue
             res = {"status": "ran", "caught_by": {}, "missed_by": [], "inconclusive": []}
-            for pid in ([sid.split("-")[0]] if own else allids):
+            chk = sys.argv[sys.argv.index("--checks") + 1].split(",") if "--checks" in sys.argv else None
+            for pid in (chk or ([sid.split("-")[0]] if own else allids)):
                 code, sigs, so = run_check(pid)
                 if code == 1:
                     res["caught_by"][pid] = sigs[:3]
